@@ -131,7 +131,10 @@ pub fn execute<P: Prop>(prop: &P, hash_seed: u64, case: &P::Case, record: bool) 
             // evaluate every trace!/error! argument inside the code under test, half evaluate none)
             crate::logger::set_for_run(hash_seed);
             let r = match outcome::guarded(|| prop.run(&case, record)) {
-                Ok(r) => r,
+                Ok(mut r) => {
+                    r.count(&format!("config.log_level_{}", crate::logger::level_name()), 1);
+                    r
+                }
                 Err(msg) => {
                     // a panic that escaped the property's own guards is a harness bug, reported as such
                     let mut r = RunReport::default();
@@ -717,6 +720,10 @@ pub fn write_evidence(e: &EvidenceIn, path: &Path) {
         json!("tick-based: the code under test reads no clock; 'ticks'/'polls'/'events' counters below are the simulated steps covered"),
     );
     cov.insert("fired".into(), json!(e.counters));
+    cov.insert(
+        "configuration_axes".into(),
+        json!(["HashMap hash keys: seeded per run (getrandom interposed), a fresh OS thread per run", "log level of an installed silent logger: off / error / trace as a function of the run seed (log-macro arguments inside the code under test are evaluated only when enabled); counts under fired.config.log_level_*"]),
+    );
     cov.insert("components".into(), e.components.clone());
     cov.insert("known_findings_reported".into(), json!(e.known_findings));
     if let Value::Object(m) = &e.extra {
